@@ -1,6 +1,6 @@
 (* C02: commutation (diamond) lemmas between transactions of different running steps, on the
    executable model of the stored workflow (model/Graph.v).  See design.d/C02.md. *)
-From Coq Require Import List NArith Bool Lia.
+From Coq Require Import List NArith Bool Lia PeanoNat.
 From SV Require Import lib.Bytes model.Graph model.GraphDump model.GraphInv model.Commute.
 Import ListNotations.
 Open Scope N_scope.
@@ -1137,4 +1137,196 @@ Proof.
     reflexivity.
   - intros l nm. unfold find_env. rewrite sd_envs1, cs_envs1, sd_envs0, cs_envs0. reflexivity.
   - congruence.
+Qed.
+
+(* ------------------------------------------------------------------------------------------ *)
+(* 12. st_equiv implies equality of the canonical dumps (GraphDump.dump_eqb) when keys are     *)
+(*     unique in both states                                                                   *)
+(* ------------------------------------------------------------------------------------------ *)
+Section Bridge.
+  Context {A K V : Type}.
+  Variable key : A -> K.
+  Variable keqb : K -> K -> bool.
+  Variable veqb : V -> V -> bool.
+  Hypothesis keqb_spec : forall a b, keqb a b = true <-> a = b.
+  Hypothesis veqb_refl : forall v, veqb v v = true.
+
+  Lemma nodup_by_NoDup (l : list K) : nodup_by keqb l = true -> NoDup l.
+  Proof.
+    induction l as [|x l IH]; cbn; intros H; [constructor|].
+    apply andb_true_iff in H as [H1 H2]. constructor; [|apply IH; exact H2].
+    intros HI. apply negb_true_iff in H1.
+    assert (existsb (keqb x) l = true).
+    { apply existsb_exists. exists x. split; [exact HI | apply keqb_spec; reflexivity]. }
+    congruence.
+  Qed.
+
+  Lemma find_self (l : list A) x :
+    nodup_by keqb (map key l) = true -> In x l -> find (fun y => keqb (key y) (key x)) l = Some x.
+  Proof.
+    induction l as [|y l IH]; cbn; intros H HI; [contradiction|].
+    apply andb_true_iff in H as [H1 H2].
+    destruct HI as [->|HI].
+    - assert (E : keqb (key x) (key x) = true) by (apply keqb_spec; reflexivity). rewrite E. reflexivity.
+    - destruct (keqb (key y) (key x)) eqn:E.
+      + exfalso. apply keqb_spec in E. apply negb_true_iff in H1.
+        assert (existsb (keqb (key y)) (map key l) = true).
+        { apply existsb_exists. exists (key x). split; [apply in_map; exact HI | apply keqb_spec; exact E]. }
+        congruence.
+      + apply IH; assumption.
+  Qed.
+
+  (* rows of l1 (dumped by d1) and of l2 (dumped by d2) with the same key have the same dump *)
+  Definition same_rows (d1 d2 : A -> V) (l1 l2 : list A) : Prop :=
+    forall k, option_map d1 (find (fun y => keqb (key y) k) l1) =
+              option_map d2 (find (fun y => keqb (key y) k) l2).
+
+  Lemma incl_dumps d1 d2 l1 l2 :
+    nodup_by keqb (map key l1) = true -> same_rows d1 d2 l1 l2 ->
+    forall x, In x l1 -> exists y, In y l2 /\ d2 y = d1 x.
+  Proof.
+    intros N1 Hs x Hx. specialize (Hs (key x)). rewrite (find_self l1 x N1 Hx) in Hs. cbn in Hs.
+    destruct (find (fun y => keqb (key y) (key x)) l2) as [y|] eqn:F; [|discriminate].
+    apply find_some in F as [Fy _]. exists y. split; [exact Fy|]. cbn in Hs. congruence.
+  Qed.
+
+  Lemma set_eqb_of_same_rows d1 d2 l1 l2 :
+    (forall x y, d1 x = d2 y -> key x = key y) ->
+    nodup_by keqb (map key l1) = true -> nodup_by keqb (map key l2) = true ->
+    same_rows d1 d2 l1 l2 -> set_eqb veqb (map d1 l1) (map d2 l2) = true.
+  Proof.
+    intros DK N1 N2 Hs.
+    assert (Hs' : same_rows d2 d1 l2 l1) by (intros k; symmetry; apply Hs).
+    pose proof (incl_dumps d1 d2 l1 l2 N1 Hs) as I12. pose proof (incl_dumps d2 d1 l2 l1 N2 Hs') as I21.
+    unfold set_eqb. rewrite !map_length. repeat (apply andb_true_iff; split).
+    - apply Nat.eqb_eq. apply Nat.le_antisymm.
+      + rewrite <- (map_length key l1), <- (map_length key l2).
+        apply NoDup_incl_length; [apply nodup_by_NoDup; exact N1|].
+        intros k Hk. apply in_map_iff in Hk as [x [<- Hx]]. destruct (I12 x Hx) as [y [Hy E]].
+        rewrite (DK x y (eq_sym E)). apply in_map. exact Hy.
+      + rewrite <- (map_length key l1), <- (map_length key l2).
+        apply NoDup_incl_length; [apply nodup_by_NoDup; exact N2|].
+        intros k Hk. apply in_map_iff in Hk as [x [<- Hx]]. destruct (I21 x Hx) as [y [Hy E]].
+        rewrite <- (DK y x E). apply in_map. exact Hy.
+    - apply forallb_forall. intros v Hv. apply in_map_iff in Hv as [x [<- Hx]].
+      destruct (I12 x Hx) as [y [Hy E]]. apply existsb_exists. exists (d2 y).
+      split; [apply in_map; exact Hy | rewrite E; apply veqb_refl].
+    - apply forallb_forall. intros v Hv. apply in_map_iff in Hv as [x [<- Hx]].
+      destruct (I21 x Hx) as [y [Hy E]]. apply existsb_exists. exists (d1 y).
+      split; [apply in_map; exact Hy | rewrite E; apply veqb_refl].
+  Qed.
+End Bridge.
+
+Lemma existsb_map_key {A K} (key : A -> K) (p : K -> bool) l :
+  existsb (fun b => p (key b)) l = existsb p (map key l).
+Proof. induction l as [|x l IH]; cbn; [reflexivity|]. rewrite IH. reflexivity. Qed.
+Lemma nodup_by_map {A K} (key : A -> K) (keqb : K -> K -> bool) l :
+  nodup_by (fun a b => keqb (key a) (key b)) l = nodup_by keqb (map key l).
+Proof.
+  induction l as [|x l IH]; cbn; [reflexivity|]. rewrite IH.
+  rewrite (existsb_map_key key (keqb (key x))). reflexivity.
+Qed.
+
+Definition kk_eqb (a b : key * key) : bool := key_eqb (fst a) (fst b) && key_eqb (snd a) (snd b).
+Definition ss_eqb (a b : str * str) : bool := str_eqb (fst a) (fst b) && str_eqb (snd a) (snd b).
+Lemma kk_eqb_spec a b : kk_eqb a b = true <-> a = b.
+Proof.
+  destruct a, b. unfold kk_eqb. cbn. rewrite andb_true_iff, !key_eqb_eq. split.
+  - intros [-> ->]. reflexivity.
+  - intros H. inversion H. auto.
+Qed.
+Lemma ss_eqb_spec a b : ss_eqb a b = true <-> a = b.
+Proof.
+  destruct a, b. unfold ss_eqb. cbn. rewrite andb_true_iff, !str_eqb_eq. split.
+  - intros [-> ->]. reflexivity.
+  - intros H. inversion H. auto.
+Qed.
+
+Lemma okey_eqb_refl c : okey_eqb c c = true.
+Proof. destruct c; cbn; [apply key_eqb_refl | reflexivity]. Qed.
+Lemma on_eqb_refl h : on_eqb h h = true.
+Proof. destruct h; cbn; [apply N.eqb_refl | reflexivity]. Qed.
+Lemma dnode_eqb_refl v : dnode_eqb v v = true.
+Proof. destruct v as [[k c] d]. cbn. rewrite key_eqb_refl, okey_eqb_refl, Bool.eqb_reflx. reflexivity. Qed.
+Lemma dfile_eqb_refl v : dfile_eqb v v = true.
+Proof. destruct v as [[l c] h]. cbn. rewrite str_eqb_refl, N.eqb_refl, on_eqb_refl. reflexivity. Qed.
+Lemma dstep_eqb_refl v : dstep_eqb v v = true.
+Proof.
+  destruct v as [[[[[[l a] b] c] d] e] f]. cbn.
+  rewrite str_eqb_refl, !N.eqb_refl, !Bool.eqb_reflx. reflexivity.
+Qed.
+Lemma ddep_eqb_refl v : ddep_eqb v v = true.
+Proof. destruct v as [[a b] d]. cbn. rewrite !key_eqb_refl, Bool.eqb_reflx. reflexivity. Qed.
+Lemma denv_eqb_refl v : denv_eqb v v = true.
+Proof. destruct v as [[a b] d]. cbn. rewrite !str_eqb_refl, Bool.eqb_reflx. reflexivity. Qed.
+
+Theorem st_equiv_dump_eqb s1 s2 :
+  st_equiv s1 s2 -> uniq_b s1 = true -> uniq_b s2 = true -> st_equivb s1 s2 = true.
+Proof.
+  intros E U1 U2. destruct E. unfold uniq_b in U1, U2.
+  repeat (apply andb_true_iff in U1 as [U1 ?]). repeat (apply andb_true_iff in U2 as [U2 ?]).
+  unfold st_equivb, dump_eqb, dump_of.
+  cbn [d_nodes d_files d_steps d_deps d_shash d_envs].
+  apply andb_true_iff; split; [apply andb_true_iff; split; [apply andb_true_iff; split;
+    [apply andb_true_iff; split; [apply andb_true_iff; split|]|]|]|].
+  - (* nodes *)
+    apply (set_eqb_of_same_rows nk key_eqb dnode_eqb key_eqb_eq dnode_eqb_refl); try assumption.
+    + intros x y E. inversion E. reflexivity.
+    + intros k. specialize (eq_node k). unfold node_view, find_node in eq_node.
+      destruct (find (fun n => key_eqb (nk n) k) (nodes s1)) as [n1|] eqn:F1,
+               (find (fun n => key_eqb (nk n) k) (nodes s2)) as [n2|] eqn:F2; cbn; try discriminate; [|reflexivity].
+      apply find_some in F1 as [_ F1]. apply find_some in F2 as [_ F2].
+      apply key_eqb_eq in F1, F2. inversion eq_node. congruence.
+  - (* files *)
+    apply (set_eqb_of_same_rows fl str_eqb dfile_eqb str_eqb_eq dfile_eqb_refl); try assumption.
+    + intros x y E. inversion E. reflexivity.
+    + intros k. specialize (eq_file k). unfold file_view, find_file in eq_file.
+      destruct (find (fun r => str_eqb (fl r) k) (files s1)) as [n1|] eqn:F1,
+               (find (fun r => str_eqb (fl r) k) (files s2)) as [n2|] eqn:F2; cbn; try discriminate; [|reflexivity].
+      apply find_some in F1 as [_ F1]. apply find_some in F2 as [_ F2].
+      apply str_eqb_eq in F1, F2. inversion eq_file. congruence.
+  - (* steps: the dump also carries has_hash of the row's label *)
+    apply (set_eqb_of_same_rows sl str_eqb dstep_eqb str_eqb_eq dstep_eqb_refl); try assumption.
+    + intros x y E. inversion E. reflexivity.
+    + intros k. specialize (eq_step k). unfold step_view, find_step in eq_step.
+      destruct (find (fun r => str_eqb (sl r) k) (steps s1)) as [n1|] eqn:F1,
+               (find (fun r => str_eqb (sl r) k) (steps s2)) as [n2|] eqn:F2; cbn; try discriminate; [|reflexivity].
+      apply find_some in F1 as [_ F1]. apply find_some in F2 as [_ F2].
+      apply str_eqb_eq in F1, F2. inversion eq_step. rewrite F1, F2, eq_hash. congruence.
+  - (* deps *)
+    apply (set_eqb_of_same_rows (fun d => (dsrc d, dsnk d)) kk_eqb ddep_eqb kk_eqb_spec ddep_eqb_refl).
+    + intros x y E. inversion E. reflexivity.
+    + rewrite <- nodup_by_map. assumption.
+    + rewrite <- nodup_by_map. assumption.
+    + intros [a b]. specialize (eq_dep a b). unfold find_dep in eq_dep. unfold kk_eqb. cbn [fst snd].
+      destruct (find (fun d => key_eqb (dsrc d) a && key_eqb (dsnk d) b) (deps s1)) as [n1|] eqn:F1,
+               (find (fun d => key_eqb (dsrc d) a && key_eqb (dsnk d) b) (deps s2)) as [n2|] eqn:F2;
+        cbn; try discriminate; [|reflexivity].
+      apply find_some in F1 as [_ F1]. apply find_some in F2 as [_ F2].
+      apply andb_true_iff in F1 as [A1 B1]. apply andb_true_iff in F2 as [A2 B2].
+      apply key_eqb_eq in A1, B1, A2, B2. inversion eq_dep. congruence.
+  - (* stored hashes *)
+    rewrite <- (map_id (shash s1)), <- (map_id (shash s2)).
+    apply (set_eqb_of_same_rows (fun x : str => x) str_eqb str_eqb str_eqb_eq str_eqb_refl).
+    + intros x y E. exact E.
+    + rewrite map_id. assumption.
+    + rewrite map_id. assumption.
+    + intros k. specialize (eq_hash k). unfold has_hash in eq_hash.
+      assert (Q : forall l, option_map (fun x : str => x) (find (fun y => str_eqb y k) l) =
+                            if existsb (str_eqb k) l then Some k else None).
+      { induction l as [|y l IH]; cbn; [reflexivity|]. rewrite (str_eqb_sym k y).
+        destruct (str_eqb y k) eqn:E; cbn; [apply str_eqb_eq in E; congruence | exact IH]. }
+      rewrite !Q, eq_hash. reflexivity.
+  - (* env rows *)
+    apply (set_eqb_of_same_rows (fun e => (estep e, ename e)) ss_eqb denv_eqb ss_eqb_spec denv_eqb_refl).
+    + intros x y E. inversion E. reflexivity.
+    + rewrite <- nodup_by_map. assumption.
+    + rewrite <- nodup_by_map. assumption.
+    + intros [a b]. specialize (eq_env a b). unfold find_env in eq_env. unfold ss_eqb. cbn [fst snd].
+      destruct (find (fun e => str_eqb (estep e) a && str_eqb (ename e) b) (envs s1)) as [n1|] eqn:F1,
+               (find (fun e => str_eqb (estep e) a && str_eqb (ename e) b) (envs s2)) as [n2|] eqn:F2;
+        cbn; try discriminate; [|reflexivity].
+      apply find_some in F1 as [_ F1]. apply find_some in F2 as [_ F2].
+      apply andb_true_iff in F1 as [A1 B1]. apply andb_true_iff in F2 as [A2 B2].
+      apply str_eqb_eq in A1, B1, A2, B2. inversion eq_env. congruence.
 Qed.
